@@ -112,8 +112,15 @@ def _check_int(v, what):
 
 
 class _TT(object):
-    def __init__(self, yday):
+    """time.struct_time stand-in: tm_yday and the first six fields by index / slice"""
+    def __init__(self, yday, fields=None):
         self.tm_yday = yday
+        self._fields = fields
+
+    def __getitem__(self, i):
+        if self._fields is None:
+            raise core.EngineError('timetuple() fields of a plain date model')
+        return self._fields[i]
 
 
 class date(object):
@@ -153,7 +160,8 @@ class date(object):
         return r
 
     def timetuple(self):
-        return _TT(_days_before_month(self.year, self.month) + self.day)
+        hms = (getattr(self, 'hour', 0), getattr(self, 'minute', 0), getattr(self, 'second', 0))
+        return _TT(_days_before_month(self.year, self.month) + self.day, (self.year, self.month, self.day) + hms)
 
     def weekday(self):
         return (self.toordinal() + 6) % 7
